@@ -41,6 +41,8 @@ func (g *gen) ws() string {
 		return "\r\n"
 	case 6:
 		return " /* a /* nested " + g.pick("", "é", "\n") + " */ b */ "
+	case 7:
+		return g.pick("/*\n*/", "/* a\n*/", "/*\n\n*/", "/* /*\n*/ \n*/", "/**\n*/", "/*\n/* b */\n*/", "// l\n/* c\n*/", "/* c\n*/x", "\n/*\n*/\n")
 	}
 	return " "
 }
@@ -309,7 +311,10 @@ var targeted = []string{
 	"a\xc3b", "\"a\xffb\" c", "// \xff\nz", "x\r\ny", "let x = \"\\(a)\\(b)\"", "let x = \"a\\(\"b\")c\"", "let x = \"a\\(\"a\\(x2)b\")b\"",
 	"let x = \"\\(f(\"\\(y)\"))\"", "a $ b c", "1 + `x` + 2", "é", "aé b", "\"é\" é", "/* /* */", "/* a */ */", "\"\\(", "\"\\(a", "\"\\(a)",
 	"let s = \"😀\" let t = 1", "let s = \"x\" // 日本\nlet t = 2", "/*😀*/ /*é*/ x", "\n\n\né", "x // é\r\ny", "\"\\u{110000}\"", "\"\\q\"", "0x", "0b2", "1.", "1__0", "09",
-	"#!shebang\nfun f() {}", "\ufeffaccess(all) fun f() {}", "let x = \"\\(a \\x b)\"",
+	"#!shebang\nfun f() {}",
+	"/*\n*/\nx y\nz", "/* a\n*/\nx y\nz", "/*\n\n*/\nx y\nz", "/* /*\n*/ \n*/\nx y\nz", "/* c\n", "/* c", "/*\n", "/* a\n*/x y\nz w",
+	"/**\n*/\nfun f() {}\nlet x = 1", "/** d\n*/ fun f() {}\nlet y = 2", "// l\n/* b\n*/\nx\ny", "x /*\n*/ y /*\n/*\n*/\n*/ z\nw",
+	"/*\r\n*/\nx\ny", "/*é\n*/\nx\ny", "let a = 1 /*\n*/ let b = 2\nlet c = 3", "\ufeffaccess(all) fun f() {}", "let x = \"\\(a \\x b)\"",
 }
 
 func (g *gen) big() genInput {
